@@ -283,7 +283,11 @@ func (sw *SingleAddressWallet) SpendableOutputs() ([]types.SiacoinElement, error
 	return unspent, nil
 }
 
-func (sw *SingleAddressWallet) selectUTXOs(amount types.Currency, inputs int, useUnconfirmed bool) (types.ChainIndex, []types.SiacoinElement, types.Currency, error) {
+// selectUTXOs selects outputs for a v1 (v2 == false) or v2 (v2 == true)
+// transaction. Unconfirmed outputs are only offered if they were created by a
+// pooled transaction of the same version: an unconfirmed output of a v1
+// transaction cannot be spent by a v2 transaction and vice versa.
+func (sw *SingleAddressWallet) selectUTXOs(amount types.Currency, inputs int, useUnconfirmed, v2 bool) (types.ChainIndex, []types.SiacoinElement, types.Currency, error) {
 	tip, elements, err := sw.store.UnspentSiacoinElements()
 	if err != nil {
 		return types.ChainIndex{}, nil, types.ZeroCurrency, err
@@ -301,6 +305,9 @@ func (sw *SingleAddressWallet) selectUTXOs(amount types.Currency, inputs int, us
 			delete(tpoolUtxos, sci.ParentID)
 		}
 		for i, sco := range txn.SiacoinOutputs {
+			if v2 {
+				break
+			}
 			tpoolUtxos[txn.SiacoinOutputID(i)] = types.SiacoinElement{
 				ID:            txn.SiacoinOutputID(i),
 				StateElement:  types.StateElement{LeafIndex: types.UnassignedLeafIndex},
@@ -314,6 +321,9 @@ func (sw *SingleAddressWallet) selectUTXOs(amount types.Currency, inputs int, us
 			delete(tpoolUtxos, sci.Parent.ID)
 		}
 		for i := range txn.SiacoinOutputs {
+			if !v2 {
+				break
+			}
 			sce := txn.EphemeralSiacoinOutput(i)
 			tpoolUtxos[sce.ID] = sce.Move()
 		}
@@ -451,7 +461,7 @@ func (sw *SingleAddressWallet) FundTransaction(txn *types.Transaction, amount ty
 	sw.mu.Lock()
 	defer sw.mu.Unlock()
 
-	_, selected, inputSum, err := sw.selectUTXOs(amount, len(txn.SiacoinInputs), useUnconfirmed)
+	_, selected, inputSum, err := sw.selectUTXOs(amount, len(txn.SiacoinInputs), useUnconfirmed, false)
 	if err != nil {
 		return nil, err
 	}
@@ -514,7 +524,7 @@ func (sw *SingleAddressWallet) FundV2Transaction(txn *types.V2Transaction, amoun
 	sw.mu.Lock()
 	defer sw.mu.Unlock()
 
-	tip, selected, inputSum, err := sw.selectUTXOs(amount, len(txn.SiacoinInputs), useUnconfirmed)
+	tip, selected, inputSum, err := sw.selectUTXOs(amount, len(txn.SiacoinInputs), useUnconfirmed, true)
 	if err != nil {
 		return types.ChainIndex{}, nil, err
 	}
